@@ -223,6 +223,15 @@ def run(ctx):
     for o in r8.obligations:
         o["rule"] = "C15.R8"
     rules.append(r8)
+    # the two modes are two renders (often of the same survey, one after the other): what the first render leaves in a
+    # memoised result the second one reads - shared with C14.R2 (memoised results and the objects drawn from them are
+    # never written)
+    from . import c14
+    from .c08 import _take
+    r9 = Rule("C15", "C15.R9", "a render leaves nothing behind in memoised results for the next render to read", floor=1,
+              necessary="token positions / lists edited in a cached parse make the second serialisation of the same text differ from the first")
+    _take(r9, c14.run(ctx), "C14.R2", lambda c: ":uses " in c)
+    rules.append(r9)
     return rules
 
 
